@@ -47,6 +47,7 @@ from .base import _NONE_NAME
 from .base import NO_ARG
 from .base import SchemaEventTarget
 from .cache_key import HasCacheKey
+from .cache_key import NO_CACHE
 from .elements import quoted_name
 from .elements import Slice
 from .elements import TypeCoerce as type_coerce  # noqa
@@ -3468,6 +3469,18 @@ class TupleType(TypeEngine[TupleAny]):
             item_type() if isinstance(item_type, type) else item_type
             for item_type in types
         ]
+
+    @util.memoized_property
+    def _static_cache_key(self):
+        # the element types are given positionally; they select the
+        # per-element bind processors of an IN against a tuple
+        key = []
+        for item_type in self.types:
+            item_key = item_type._static_cache_key
+            if item_key is NO_CACHE:
+                return NO_CACHE
+            key.append(item_key)
+        return (self.__class__, ("types", tuple(key)))
 
     def coerce_compared_value(
         self, op: Optional[OperatorType], value: Any
